@@ -145,11 +145,11 @@ theorem qinv_instHandleSubscribe (s : Stack) (i : Nat) (e : SDEntry) (a : Addr) 
         · simp only []
           split
           · exact qinv_frame (qpi_setInst _ _ _) hi
-          · exact qinv_frame ((qpi_emit_unsubscribed _ _ _ _).trans ((qpi_cancelTimer_sub _ _).trans (qpi_setInst _ _ _))) hi
+          · exact qinv_frame ((qpi_emit_unsubscribed _ _ _ _).trans ((qpi_cancelTimer_subFor _ _ _ _ _).trans (qpi_setInst _ _ _))) hi
         · simp only []
           split
           · apply qinv_queueSend
-            exact qinv_frame ((qpi_setInst _ _ _).trans ((qpi_armTtl_sub _ _ _ _ _).trans (qpi_cancelTimer_sub _ _))) hi
+            exact qinv_frame ((qpi_setInst _ _ _).trans ((qpi_armTtl_sub _ _ _ _ _).trans (qpi_cancelTimer_subFor _ _ _ _ _))) hi
           · split
             · apply qinv_queueSend
               exact qinv_frame (qpi_setInst _ _ _) hi
